@@ -13,7 +13,8 @@ RULE = ("GetMetric records: random registries (<= 5 non-uniform integer metric v
         "metrics the rule allows (TLC enumerates them), also after earlier lookups for arrays at other positions on "
         "the same Grid; Integrate/Average/Derivative/Weighted records: real operator "
         "calls with non-uniform metrics incl. NaN masks and distractor variables at other positions; non-trivial = "
-        "distinct (event, registry shape, array position, axes) classes")
+        "distinct (event, registry shape, array position, axes) classes"
+        ' Also: registries over three axes holding any subset of pairs and singles, metrics of different blocks on the same dimensions, all blocks off position, variables overwritten by ones stored in another dimension order, earlier lookups on the same Grid.')
 
 
 def rand_grid(rng, naxes=None, nmax=3):
